@@ -17,6 +17,7 @@ import (
 
 	"github.com/tobgu/qframe"
 	"github.com/tobgu/qframe/config/groupby"
+	"github.com/tobgu/qframe/config/newqf"
 	"github.com/tobgu/qframe/verifhook"
 	"pgregory.net/rapid"
 
@@ -334,9 +335,93 @@ func runHuge(t *rapid.T, prop string) {
 	}
 }
 
+// runLargeEnum: a few thousand rows keyed by ONE enum (or string) column with
+// a handful of values and some nulls, both Null settings: the shape for which
+// an implementation might bucket by enum code instead of hashing.
+func runLargeEnum(t *rapid.T, prop string) {
+	n := rapid.IntRange(4096, 9000).Draw(t, "rows")
+	r := core.NewSplitMix(rapid.Uint64().Draw(t, "key"))
+	nvals := 2 + r.Intn(6)
+	null := r.Intn(2) == 0
+	asEnum := r.Intn(3) != 0
+	vals := make([]string, nvals)
+	for i := range vals {
+		vals[i] = []string{"", "a", "b", "ab", "A", "\x00", "zz", "q"}[i]
+	}
+	strs := make([]*string, n)
+	ids := make([]int, n)
+	nulls := 0
+	for i := range strs {
+		ids[i] = i
+		if r.Intn(400) == 0 {
+			nulls++
+			continue
+		}
+		strs[i] = &vals[r.Intn(nvals)]
+	}
+	core.Eval()
+	core.Probe("large-single-enum-key")
+	tr := map[string]interface{}{"rows": n, "values": vals, "nulls": nulls, "group_null": null, "enum": asEnum, "op": prop}
+	var opts []newqf.ConfigFunc
+	if asEnum {
+		opts = append(opts, newqf.Enums(map[string][]string{"k": nil}))
+	}
+	qf := qframe.New(map[string]interface{}{"k": strs, "__id": ids}, opts...)
+	if qf.Err != nil {
+		t.Fatalf("harness: %v", qf.Err)
+	}
+	if r.Intn(2) == 0 {
+		qf = qf.Filter(qframe.Filter{Column: "__id", Comparator: ">=", Arg: 3}) // a derived frame
+	}
+	// model
+	classes := map[string]int{}
+	total := 0
+	iv := qf.MustIntView("__id")
+	for i := 0; i < iv.Len(); i++ {
+		p := strs[iv.ItemAt(i)]
+		key := "null"
+		if p != nil {
+			key = "s:" + *p
+		} else if !null {
+			key = "null#" + strconv.Itoa(i)
+		}
+		classes[key]++
+		total++
+	}
+	rand.Seed(int64(r.Uint64() >> 1))
+	verifhook.SetHash(goodHash(r.Uint64()))
+	defer verifhook.SetHash(nil)
+	core.Nontrivial(core.Hash64("large-enum", n, nvals, null, asEnum, prop))
+	core.Event("large-enum", n, len(classes), prop)
+	if prop == "C05" {
+		res := qf.Distinct(groupby.Columns("k"), groupby.Null(null))
+		if res.Err != nil || res.Len() != len(classes) {
+			core.Violation(t, "C05:D1:row-count:large-enum", fmt.Sprintf("Distinct on one %d-row enum/string key column returned %d rows (err %v), the key equality gives %d classes", total, res.Len(), res.Err, len(classes)), tr)
+		}
+		return
+	}
+	res := qf.GroupBy(groupby.Columns("k"), groupby.Null(null)).Aggregate(qframe.Aggregation{Fn: "count", Column: "__id", As: "n"})
+	if res.Err != nil || res.Len() != len(classes) {
+		core.Violation(t, "C04:G2:row-count:large-enum", fmt.Sprintf("GroupBy on one %d-row enum/string key column gave %d groups (err %v), the key equality gives %d classes", total, res.Len(), res.Err, len(classes)), tr)
+		return
+	}
+	nv := res.MustIntView("n")
+	sum := 0
+	for i := 0; i < nv.Len(); i++ {
+		sum += nv.ItemAt(i)
+	}
+	if sum != total {
+		core.Violation(t, "C04:G2:value:large-enum", fmt.Sprintf("group sizes add up to %d, the frame has %d rows", sum, total), tr)
+	}
+}
+
 func run(t *rapid.T, prop string) {
 	if gen.Rare(t, "huge", 5000) {
 		runHuge(t, prop)
+		return
+	}
+	if gen.Rare(t, "largeenum", 1500) {
+		runLargeEnum(t, prop)
 		return
 	}
 	b := gen.FrameBounds{MaxCols: 4, MaxRows: 40, WithID: true}
